@@ -30,8 +30,8 @@ structure AliveE (cfg : Cfg) (hdr T : Bytes) (E : List Bytes) (st : PSt ω) : Pr
 def PrefixOK (cfg : Cfg) (v : Version) (hdr W T : Bytes) : Prop :=
   ∀ X B, planBytes cfg.pkt (Encrypt.chunkPlan v cfg.bs (T ++ X)) 0 = .ok B → W <+: hdr ++ B
 
-theorem readPanics_full (v1s : Bool) (bs k n : Nat) (hb : 0 < bs) :
-    readPanics v1s false bs bs k = false ∧ assertPanics v1s false bs n = false := by
+theorem readPanics_full (v1s : Bool) (x bs k n : Nat) (hb : 0 < bs) :
+    readPanics v1s false bs bs k = false ∧ assertPanics v1s x false bs n = false := by
   unfold readPanics assertPanics
   cases v1s <;> simp <;> omega
 
@@ -80,7 +80,7 @@ theorem alive_writeLoop (hw : ObsWriter wr obs) (cfg : Cfg) (hp : ∀ b, (cfg.pi
         · simp only [List.mem_singleton] at he; rw [he, hclen]
       obtain ⟨body, hbody, hobs⟩ := ha.body
       obtain ⟨hbuf, herr, hc⟩ := emitBlock_cases wr obs hw cfg hp false st
-      have hnp := readPanics_full cfg.v1shape cfg.bs (st.buf.drop cfg.bs).length st.n hb
+      have hnp := readPanics_full cfg.v1shape cfg.assertExtra cfg.bs (st.buf.drop cfg.bs).length st.n hb
       rcases hc with ⟨s, _, _, _, hpan⟩ | ⟨e, hpk, h1, h2, h3⟩ | ⟨b, hpk, _, _, hc⟩
       · rw [hclen] at hpan
         rcases hpan with h | h
@@ -198,7 +198,7 @@ theorem healthy_emit (hw : ObsWriter wr obs) (cfg : Cfg) (hp : ∀ b, (cfg.piece
     (hif : IndexFail cfg.pkt) (hdr : Bytes) (pl : List (Bytes × Bool)) (body : Bytes) (st : PSt ω) (f : Bool)
     (hn : st.n = pl.length) (hbody : planBytes cfg.pkt pl 0 = .ok body) (hobs : obs st.codec.w = hdr ++ body)
     (hnr : readPanics cfg.v1shape f cfg.bs (st.buf.take cfg.bs).length (st.buf.drop cfg.bs).length = false)
-    (hna : assertPanics cfg.v1shape f (st.buf.take cfg.bs).length st.n = false) :
+    (hna : assertPanics cfg.v1shape cfg.assertExtra f (st.buf.take cfg.bs).length st.n = false) :
     (∃ b, (emitBlock wr cfg f st).1 = none ∧
         planBytes cfg.pkt (pl ++ [(st.buf.take cfg.bs, f)]) 0 = .ok (body ++ b) ∧
         obs (emitBlock wr cfg f st).2.codec.w = hdr ++ (body ++ b) ∧
@@ -239,17 +239,17 @@ theorem healthy_emit (hw : ObsWriter wr obs) (cfg : Cfg) (hp : ∀ b, (cfg.piece
       apply (List.prefix_append_right_inj hdr).2
       exact List.IsPrefix.trans ((List.prefix_append_right_inj body).2 hq) hAB
 
-theorem readPanics_last (v1s : Bool) (bs len n : Nat) (hlen : len ≤ bs) :
-    (v1s = true → 0 < len → readPanics v1s false bs len 0 = false ∧ assertPanics v1s false len n = false) ∧
-    (v1s = true → ∀ m, readPanics v1s true bs 0 0 = false ∧ assertPanics v1s true 0 m = false) ∧
-    (v1s = false → (len = 0 → n = 0) → readPanics v1s true bs len 0 = false ∧ assertPanics v1s true len n = false) := by
+theorem readPanics_last (v1s : Bool) (x bs len n : Nat) (hlen : len ≤ bs) :
+    (v1s = true → 0 < len → readPanics v1s false bs len 0 = false ∧ assertPanics v1s x false len n = false) ∧
+    (v1s = true → ∀ m, readPanics v1s true bs 0 0 = false ∧ assertPanics v1s x true 0 m = false) ∧
+    (v1s = false → (len = 0 → n = 0) → readPanics v1s true bs len 0 = false ∧ assertPanics v1s x true len n = false) := by
   unfold readPanics assertPanics
   refine ⟨?_, ?_, ?_⟩
   · intro h hl; subst h; simp; omega
   · intro h m; subst h; simp
   · intro h hn; subst h; simp
     refine ⟨by omega, ?_⟩
-    intro h0; exact hn h0
+    intro h0 _; exact hn h0
 
 /-- `Close` from a healthy, settled state: success with exactly the all-at-once
     output at the writer — or an error (the writer's, or the packet function's),
@@ -271,7 +271,7 @@ theorem alive_close (hw : ObsWriter wr obs) (cfg : Cfg) (hp : ∀ b, (cfg.pieces
   have hdrop : st.buf.drop cfg.bs = [] := List.drop_of_length_le hbound
   obtain ⟨body, hbody, hobs⟩ := ha.body
   have hn0 : st.n = (E.map (fun x => (x, false))).length := by rw [ha.n]; simp
-  obtain ⟨hp1, hp2, hp3⟩ := readPanics_last cfg.v1shape cfg.bs st.buf.length st.n hbound
+  obtain ⟨hp1, hp2, hp3⟩ := readPanics_last cfg.v1shape cfg.assertExtra cfg.bs st.buf.length st.n hbound
   unfold PSt.close
   by_cases hv1 : v = v1
   · have hs : cfg.v1shape = true := by rw [hv]; simp [hv1]
